@@ -49,6 +49,10 @@ MIN_COUNTERS = {
     'quick': {'lift_method_evaluations': 5000, 'lift_builtin_evaluations': 5000,
               'lift_value_agreements': 6000, 'law_samples': 20000,
               'stream_history_pulls_compared': 20000,
+              'reentrant_function_calls_compared': 3000,
+              'concurrent_function_calls_compared': 3000,
+              'shared_pattern_stream_pairs_compared': 1000,
+              'concurrent_pattern_stream_pairs_compared': 300,
               'stream_histories_poll_paused_then_continue': 500,
               'stream_histories_exhaust_then_reset_operand': 300,
               'max_method_entry_points': 100, 'max_builtin_entry_points': 100,
@@ -57,6 +61,10 @@ MIN_COUNTERS = {
                  'lift_builtin_evaluations': 600000,
                  'lift_value_agreements': 800000, 'law_samples': 3000000,
                  'stream_history_pulls_compared': 1000000,
+                 'reentrant_function_calls_compared': 100000,
+                 'concurrent_function_calls_compared': 100000,
+                 'shared_pattern_stream_pairs_compared': 30000,
+                 'concurrent_pattern_stream_pairs_compared': 10000,
                  'stream_histories_poll_paused_then_continue': 20000,
                  'stream_histories_exhaust_then_reset_operand': 10000,
                  'max_method_entry_points': 100, 'max_builtin_entry_points': 100,
@@ -77,6 +85,10 @@ def plan(tier, seed):
                            'hard_timeout': secs + 120})
     for p, (f, n) in enumerate(split(30000 if q else 4_000_000, 2)):
         shards.append({'name': f'hist{p}', 'mode': 'nrt', 'kind': 'hist',
+                       'first_case': f, 'n': n, 'secs': secs,
+                       'hard_timeout': secs + 120})
+    for p, (f, n) in enumerate(split(6000 if q else 300_000, 2)):
+        shards.append({'name': f'reent{p}', 'mode': 'nrt', 'kind': 'reent',
                        'first_case': f, 'n': n, 'secs': secs,
                        'hard_timeout': secs + 120})
     shards.append({'name': 'meta', 'mode': 'nrt', 'kind': 'meta', 'first_case': 0,
@@ -596,6 +608,417 @@ def run_hist(spec, acc):
                         'routines': descr, 'history': hist})
 
 
+# ---------------------------------------------------------------------------
+# overlapping evaluations of ONE lifted object: re-entrancy in one thread,
+# several threads under schedule injection, and two streams of one lifted
+# pattern.  Oracle: the pointwise reference from plain Python values.
+
+def _op_entries():
+    from vf import c15_ops as ops
+    bents = ops.builtin_entries()
+    ments = ops.method_entries()
+    for e in ments:
+        e['random'] = ops.random_selector(e['selector'], bents)
+        e['src'] = 'method'
+    for e in bents:
+        e['src'] = 'builtin'
+        e['hook'] = e['arity']
+    return [e for e in ments + bents if not e['random']]
+
+
+def _apply_entry(e, a, objs):
+    from vf import c15_ops as ops
+    if e['src'] == 'builtin':
+        return e['wrapper'](a, *objs)
+    if e['dunder']:
+        call = ops.DUNDER_CALL[e['name']]
+        return call(objs[0], a) if e['hook'] == 'rbinop' else call(a, *objs)
+    return getattr(a, e['name'])(*objs)
+
+
+def _selector_call(e, nsup):
+    """plain function (receiver value, [other values]) -> result | ('exc', T)"""
+    from vf import c15_kinds as ck
+    if e['src'] == 'builtin':
+        sel = e['func']
+        rest = list(e['opt_defaults'][nsup - e['nreq']:])
+        return lambda a, vals: ck.scalar_call(sel, a, *vals, *rest)
+    sel = e['selector']
+
+    def f(a, vals):
+        sargs = []
+        for kind_, v in e['template']:
+            if kind_ == 'const':
+                sargs.append(v)
+            elif v < nsup:
+                sargs.append(vals[v])
+            else:
+                sargs.append(e['opt_defaults'][v - e['nreq']])
+        if e['hook'] == 'rbinop':
+            return ck.scalar_call(sel, sargs[0], a)
+        return ck.scalar_call(sel, a, *sargs)
+    return f
+
+
+class FnCase:
+    """h = op(f, args...) lifted over functions of x (linear, so that values
+    differ with x), optionally with one participating function that evaluates
+    h itself for x - step before returning its own value, optionally nested in
+    a second expression that uses the object h twice."""
+
+    def __init__(self, e, rng):
+        self.e, self.rng = e, rng
+        self.hook = e['hook']
+        self.nsup = e['nreq'] + (rng.randint(0, e['nopt']) if e['nopt'] else 0)
+        ints = rng.random() < 0.5
+        lin = lambda: (rng.choice([1, 2, -1, 3, -2]),
+                       rng.choice([0, 1, 4, -3]) if ints else
+                       rng.choice([0.5, 1.0, -2.5, 4.0]))
+        self.a = lin()
+        self.args = []              # ('fn', k, c, composed) | ('num', v)
+        for j in range(self.nsup):
+            if self.hook != 'rbinop' and rng.random() < 0.65:
+                self.args.append(('fn',) + lin() + (rng.random() < 0.3,))
+            else:
+                self.args.append(('num', rng.choice([0, 1, 2, 5, -1]) if ints else
+                                  rng.choice([0.0, 0.5, 1.0, 2.5, 8.0])))
+        if self.hook == 'narop' and not any(x[0] == 'fn' for x in self.args) \
+                and self.args:
+            j = rng.randrange(len(self.args))
+            self.args[j] = ('fn',) + lin() + (False,)
+        fpos = ['a'] + [j for j, x in enumerate(self.args) if x[0] == 'fn']
+        self.reenter = rng.choice(fpos)
+        self.step = rng.choice([1, 2, 3])
+        self.variant = rng.choice(['plain', 'plain', 'twice', 'shifted', 'as-arg'])
+        bins = [x for x in FnCase.binops]
+        self.e2 = rng.choice(bins)
+        self.sel = _selector_call(e, self.nsup)
+        self.sel2 = _selector_call(self.e2, 1)
+
+    binops = []
+
+    # -- plain Python meaning --------------------------------------------------
+    def py_h(self, x):
+        a = x * self.a[0] + self.a[1]
+        vals = [x * t[1] + t[2] if t[0] == 'fn' else t[1] for t in self.args]
+        return self.sel(a, vals)
+
+    def py_expr(self, x, excs):
+        from vf import c15_kinds as ck
+
+        def h(y):
+            r = self.py_h(y)
+            if ck.is_exc(r):
+                excs.add(r[1])
+            return r
+        v = self.variant
+        if v == 'plain':
+            return h(x)
+        if v == 'twice':
+            l, r = h(x), h(x)
+        elif v == 'shifted':
+            l, r = h(x), h(x + 1)
+        else:   # h used as receiver and as first argument of the same operator
+            l = h(x)
+            if ck.is_exc(l):
+                return l
+            vals = [l if j == 0 else (x * t[1] + t[2] if t[0] == 'fn' else t[1])
+                    for j, t in enumerate(self.args)]
+            r = self.sel(l, vals)
+            if ck.is_exc(r):
+                excs.add(r[1])
+            return r
+        if ck.is_exc(l):
+            return l
+        if ck.is_exc(r):
+            return r
+        out = self.sel2(l, [r])
+        if ck.is_exc(out):
+            excs.add(out[1])
+        return out
+
+    # -- real objects ----------------------------------------------------------------
+    def build(self, reentrant):
+        from sc3.base import functions as fn
+        cell = [None]
+        self.inner = inner = []
+        step = self.step
+
+        def mk(k, c, re_, composed=False):
+            if re_:
+                def f(x):
+                    if x >= step:
+                        inner.append((x - step, cell[0](x - step)))
+                    return x * k + c
+            else:
+                def f(x):
+                    return x * k + c
+            F = fn.Function(f)
+            return F + 0 if composed else F
+        a = mk(self.a[0], self.a[1], reentrant and self.reenter == 'a')
+        objs = [mk(t[1], t[2], reentrant and self.reenter == j, t[3])
+                if t[0] == 'fn' else t[1] for j, t in enumerate(self.args)]
+        h = cell[0] = _apply_entry(self.e, a, objs)
+        v = self.variant
+        if v == 'plain' or (v == 'as-arg' and (self.hook != 'narop' or not objs)):
+            if v == 'as-arg':
+                self.variant = 'plain'
+            return h, h
+        if v == 'twice':
+            return h, _apply_entry(self.e2, h, [h])
+        if v == 'shifted':
+            return h, _apply_entry(self.e2, h, [fn.Function(lambda x: h(x + 1))])
+        return h, _apply_entry(self.e, h, [h] + objs[1:])
+
+    def describe(self):
+        return {'operator': f"{self.e['src']}:{self.e['name']}", 'hook': self.hook,
+                'f(x)=x*k+c': self.a, 'arguments': self.args,
+                'reentrant_function': self.reenter, 'step': self.step,
+                'expression': self.variant, 'second_operator': self.e2['name']}
+
+
+def _call(f, x):
+    try:
+        return f(x)
+    except Exception as ex:
+        return ('exc', type(ex).__name__)
+
+
+def _agree(exp, got, excs):
+    from vf import c15_kinds as ck
+    if ck.is_exc(got) and excs:
+        return got[1] in excs       # several sources: any of their types
+    return ck.same(exp, got)
+
+
+def run_reent(spec, acc):
+    import sys
+    import threading
+    from vf import c15_kinds as ck, inject
+    from sc3.base import functions as fn, stream as stm
+    from sc3.seq import pattern as ptt
+    from sc3.seq.patterns import listpatterns as lp
+    entries = _op_entries()
+    narops = [e for e in entries if e['hook'] == 'narop' and e['nreq'] + e['nopt'] > 0]
+    FnCase.binops = [e for e in entries if e['src'] == 'method' and
+                     e['hook'] == 'binop' and e['name'] in
+                     ('__add__', '__sub__', '__mul__', 'min', 'max', 'absdif')]
+    codes = [inject.func_code(c.__call__) for c in
+             (fn.NaropFunction, fn.BinopFunction, fn.UnopFunction, fn.Function)]
+    codes += [inject.func_code(f) for f in
+              (stm.NaropStream.next, stm.BinopStream.next, stm.UnopStream.next,
+               ptt.Pnarop.__embed__, ptt.Punop.__embed__, lp.Pseq.__embed__)]
+    inj = inject.Injector(codes, seed=spec['seed'])
+    inj.max_sleep = 0.0003
+    inj.start()
+    old_si = sys.getswitchinterval()
+    try:
+        for i in iter_cases(spec):
+            rng = case_rng(spec['seed'], 'C15', 'reent', i)
+            nontrivial = False
+            # ---- 1. re-entrant evaluation in one thread -------------------
+            e = narops[i % len(narops)] if i % 3 else entries[i % len(entries)]
+            acc.count('r_' + ('m_' if e['src'] == 'method' else 'b_') + e['name'])
+            fc = FnCase(e, rng)
+            xs = [rng.randint(0, 3 * fc.step) for _ in range(3)]
+            try:
+                h, expr = fc.build(reentrant=True)
+            except Exception:
+                acc.count('reent_compose_raises')
+                h = None
+            if h is not None:
+                bad = None
+                for x in xs:
+                    fc.inner.clear()
+                    excs = set()
+                    exp = fc.py_expr(x, excs)
+                    # every level of the recursion evaluates h as well
+                    starts = [x, x + 1] if fc.variant == 'shifted' else [x]
+                    for y0 in starts:
+                        y = y0
+                        while y >= 0:
+                            r = fc.py_h(y)
+                            if ck.is_exc(r):
+                                excs.add(r[1])
+                            if y < fc.step:
+                                break
+                            y -= fc.step
+                    got = _call(expr, x)
+                    acc.count('reentrant_function_calls_compared')
+                    depth = x // fc.step
+                    acc.count(f'reentrant_depth_{min(depth, 4)}')
+                    if not _agree(exp, got, excs):
+                        bad = (x, 'outer', exp, got)
+                    else:
+                        for y, r in list(fc.inner):
+                            acc.count('reentrant_inner_results_compared')
+                            if not ck.same(fc.py_h(y), r):
+                                bad = (y, 'inner call made while h was being '
+                                          'evaluated', fc.py_h(y), r)
+                                break
+                    if depth >= 1 and not ck.is_exc(exp):
+                        nontrivial = True
+                    if bad:
+                        break
+                if bad:
+                    # the same object without re-entrancy, same x
+                    _, expr2 = fc.build(reentrant=False)
+                    ex2 = set()
+                    seq_ok = _agree(fc.py_expr(bad[0], ex2), _call(expr2, bad[0]), ex2) \
+                        if bad[1] == 'outer' else True
+                    key = (f'C15/lifting/function/{fc.hook}/reentrant-evaluation'
+                           if seq_ok else
+                           f'C15/lifting/function/{fc.hook}/function-arguments')
+                    w = fc.describe()
+                    w.update({'case': i, 'x': bad[0], 'which': bad[1],
+                              'expected': srepr(bad[2]), 'library': srepr(bad[3])})
+                    acc.violation(key, w)
+            # ---- 2. threads on the same lifted object ----------------------------
+            if h is not None and i % 2 == 0:
+                try:
+                    h, expr = fc.build(reentrant=False)
+                except Exception:
+                    expr = None
+                if expr is not None:
+                    nth = rng.randint(2, 4)
+                    plans = [[rng.randint(-4, 9) + 20 * t for _ in range(5)]
+                             for t in range(nth)]
+                    res = [None] * nth
+                    barrier = threading.Barrier(nth)
+
+                    def work(t):
+                        barrier.wait(5)
+                        res[t] = [_call(expr, x) for x in plans[t]]
+                    ths = [threading.Thread(target=work, args=(t,), daemon=True)
+                           for t in range(nth)]
+                    inj.p_yield = 0.35
+                    sys.setswitchinterval(5e-5)
+                    try:
+                        for t in ths:
+                            t.start()
+                        for t in ths:
+                            t.join(20)
+                    finally:
+                        inj.p_yield = 0.0
+                        sys.setswitchinterval(old_si)
+                    if any(t.is_alive() for t in ths) or any(r is None for r in res):
+                        acc.count('concurrent_threads_not_finished')
+                    else:
+                        bad = None
+                        for t in range(nth):
+                            for x, got in zip(plans[t], res[t]):
+                                excs = set()
+                                exp = fc.py_expr(x, excs)
+                                acc.count('concurrent_function_calls_compared')
+                                if not _agree(exp, got, excs) and bad is None:
+                                    bad = (t, x, exp, got)
+                        acc.count(f'concurrent_threads_{nth}')
+                        nontrivial = True
+                        if bad:
+                            ex2 = set()
+                            seq_ok = _agree(fc.py_expr(bad[1], ex2),
+                                            _call(expr, bad[1]), ex2)
+                            key = (f'C15/lifting/function/{fc.hook}/concurrent-evaluation'
+                                   if seq_ok else
+                                   f'C15/lifting/function/{fc.hook}/function-arguments')
+                            w = fc.describe()
+                            w.update({'case': i, 'threads': nth, 'thread': bad[0],
+                                      'x': bad[1], 'expected': srepr(bad[2]),
+                                      'library': srepr(bad[3]),
+                                      'all_x': plans})
+                            acc.violation(key, w)
+            # ---- 3. two streams of one lifted pattern ------------------------------
+            e3 = entries[(i * 7 + 3) % len(entries)]
+            src3 = e3['src']
+            lc = LiftCase(src3, e3, i, rng, 1, rng.random() < 0.5)
+            lc.hook = e3['hook']
+            lc.nsup = e3['nreq'] + (rng.randint(0, e3['nopt']) if e3['nopt'] else 0)
+            lc.akind = rng.choice(['pattern', 'cpattern'])
+            lc.okinds = [rng.choice(ck.NUMBER_KINDS if lc.hook == 'rbinop' else
+                                    ck.NUMBER_KINDS + ['pattern', 'cpattern', 'pattern'])
+                         for _ in range(lc.nsup)]
+            lc.fam = 'pattern'
+            lc.state = rng.getstate()
+            lc.seedv = 0
+            a, nfa, objs, nfs = lc.build()
+            exp = lc.expected(nfa, nfs)
+            try:
+                comp = _apply_entry(e3, a, objs)
+            except Exception:
+                comp = None
+            if isinstance(comp, ptt.Pattern) and ck.is_seq(exp) and len(exp[1]) >= 2:
+                threaded = i % 4 == 1
+
+                def pulls(s, n=ck.K):
+                    out = []
+                    for _ in range(n):
+                        try:
+                            out.append(s.next(None))
+                        except stm.StopStream:
+                            break
+                        except Exception as ex:
+                            return ('exc', type(ex).__name__)
+                    return ck.collapse(('seq', out))
+                s1 = stm.stream(comp)
+                s2 = stm.stream(lp.Pseq([comp], 1))     # the embedding path
+                if not threaded:
+                    outs, done = [[], []], [False, False]
+                    err = None
+                    while not all(done):
+                        k = rng.randrange(2)
+                        if done[k]:
+                            k = 1 - k
+                        try:
+                            outs[k].append((s1, s2)[k].next(None))
+                        except stm.StopStream:
+                            done[k] = True
+                        except Exception as ex:
+                            err = ('exc', type(ex).__name__)
+                            break
+                        if len(outs[k]) >= ck.K:
+                            done[k] = True
+                    got = [err or ck.collapse(('seq', o)) for o in outs]
+                    acc.count('shared_pattern_stream_pairs_compared')
+                    how = 'shared-object-alternate-streams'
+                else:
+                    got = [None, None]
+
+                    def w3(k):
+                        got[k] = pulls((s1, s2)[k])
+                    ths = [threading.Thread(target=w3, args=(k,), daemon=True)
+                           for k in (0, 1)]
+                    inj.p_yield = 0.35
+                    sys.setswitchinterval(5e-5)
+                    try:
+                        for t in ths:
+                            t.start()
+                        for t in ths:
+                            t.join(20)
+                    finally:
+                        inj.p_yield = 0.0
+                        sys.setswitchinterval(old_si)
+                    acc.count('concurrent_pattern_stream_pairs_compared')
+                    how = 'shared-object-concurrent-streams'
+                nontrivial = True
+                for k in (0, 1):
+                    if got[k] is None or not ck.same(exp, got[k]):
+                        acc.violation(
+                            f'C15/lifting/pattern/{lc.hook}/{how}',
+                            {'case': i, src3: e3['name'], 'receiver': vrepr(nfa),
+                             'others': vrepr(nfs), 'stream': ('stream(p)',
+                                                              'stream(Pseq([p]))')[k],
+                             'expected': vrepr(exp), 'library': vrepr(got[k])})
+                        break
+            acc.case(h64((e['src'], e['name'], repr(fc.describe()), repr(xs),
+                          e3['name'], vrepr(nfa), vrepr(nfs))), nontrivial=nontrivial)
+            if acc.want_sample() and nontrivial and rng.random() < 0.01:
+                acc.sample({'case': i, **fc.describe(), 'x_values': xs})
+    finally:
+        sys.setswitchinterval(old_si)
+        acc.counters['injected_yields'] = inj.injected
+        inj.stop()
+
+
 def run_laws(spec, acc):
     from vf import c15_laws as laws
     from sc3.base import builtins as bi
@@ -751,5 +1174,7 @@ def run_shard(spec, acc):
         run_laws(spec, acc)
     elif kind == 'hist':
         run_hist(spec, acc)
+    elif kind == 'reent':
+        run_reent(spec, acc)
     else:
         run_meta(spec, acc)
